@@ -4,6 +4,10 @@ EXTENDS TraceBase, Create
 CreateKinds == {"pay", "af", "priv", "pusi", "cont", "disc", "pes"}
 Verdict(e) ==
   IF e.panic # "" THEN "panic"
+  ELSE IF e.op = "createfn" THEN
+       IF e.pid \notin 0..8191 \/ e.cc \notin 0..15 \/ e.kind \notin {"CreateTestPacket", "CreateDCPacket", "CreatePacketWithPayload"} THEN "harness-bad-input"
+       ELSE IF e.after # ExpectCreateFn(e.kind, e.pid, e.cc, e.pusi, e.haspay, e.d) THEN "createfn-bytes"
+       ELSE ""
   ELSE IF e.op = "createseq" THEN
        IF e.pid \notin 0..8191 \/ \E i \in 1..Len(e.opts) : e.opts[i].k \notin CreateKinds \/ ~IsPtsValue(e.opts[i].pts) THEN "harness-bad-input"
        ELSE IF e.after # ExpectCreate(e.pid, e.opts) THEN "create-bytes"
